@@ -20,6 +20,8 @@ H3Error h3NeighborRotations_uf(H3Index origin, Direction dir, int *rotations, H3
 __CPROVER_requires(__CPROVER_rw_ok(rotations, sizeof(int)) && __CPROVER_rw_ok(out, sizeof(H3Index)))
 __CPROVER_assigns(*rotations, *out)
 __CPROVER_ensures(__CPROVER_return_value <= 15)
+/* ASSUMED range of the rotation count (real code: sum of at most three table entries 0..5 plus 2) */
+__CPROVER_ensures(__CPROVER_old(*rotations) == 0 ==> (*rotations >= 0 && *rotations <= 32))
 __CPROVER_ensures(__CPROVER_old(*rotations) == 0 ==>
                   (__CPROVER_return_value == UE(origin, dir) && (__CPROVER_return_value == 0 ==> *out == UN(origin, dir))));
 
